@@ -105,9 +105,10 @@ Section ScanC.
     (forall p, In p freed -> p <> 0 -> forall s0 s, scan (hist tr) t = Some s0 -> ~ guards_since c (hist tr) s p s0) ->
     no_dispose_while_guarded c (tr ++ Conc.tag t (map ev_dispose freed)).
   Proof.
-    induction freed as [|p freed IH]; intros tr ND Hp; cbn; [now rewrite app_nil_r|].
-    change ((t, ev_dispose p) :: Conc.tag t (map ev_dispose freed)) with ([(t, ev_dispose p)] ++ Conc.tag t (map ev_dispose freed)).
-    rewrite app_assoc. apply IH.
+    induction freed as [|p freed IH]; intros tr ND Hp; [cbn; now rewrite app_nil_r|].
+    replace (tr ++ Conc.tag t (map ev_dispose (p :: freed))) with ((tr ++ [(t, ev_dispose p)]) ++ Conc.tag t (map ev_dispose freed))
+      by (rewrite <- app_assoc; reflexivity).
+    apply IH.
     - apply ndwg_snoc_dispose; auto. intros Hnz s0 s. apply Hp; auto. now left.
     - intros p' Hin Hnz s0 s Hs G. rewrite hist_snoc, hstep_dispose in Hs, G. cbn [scan] in Hs.
       eapply (Hp p' (or_intror Hin) Hnz s0 s Hs). eapply guards_since_same; [| | | |exact G]; reflexivity.
